@@ -235,6 +235,13 @@ def diff_dicts(a, b, path="", config=None):
                     "Found predicate(s) for path {} pointing to dict entry.".format(
                         path or '/'))
             if not json_equal(avalue, bvalue):
+                differ = config.differs.get(subpath)
+                if differ is not None and differ is not diff:
+                    # A differ is configured for this (atomic) value,
+                    # e.g. to ignore it: only report if it finds a diff
+                    # (entries equal to the default are just cached lookups)
+                    if not differ(avalue, bvalue, path=subpath, config=config):
+                        continue
                 di.replace(key, bvalue)
 
     for key in sorted(bkeys - akeys):
